@@ -177,7 +177,7 @@ theorem KeysInv.closed : Closed0 KeysInv where
   enterFiles := fun _ _ _ _ h _ _ => h
   emitRead := fun _ _ _ _ h _ => h
   emitIdle := fun _ _ _ _ h _ => h
-  publish := fun _ _ now _ h => h.publish now
+  publish := fun _ _ now _ h _ => h.publish now
   fdtAdvance := fun s L now _ h _ _ => by
     rcases fdtAdvance_cases s now with ⟨e, _⟩ | ⟨k, f, _, _, _, e⟩
     · rw [e]; exact h.same _ _ (fdtPop_objs s) (fdtPop_nextToi s)
@@ -227,7 +227,9 @@ theorem KeysInv.closedOps : ClosedOps0 KeysInv where
     · split
       · exact h
       · exact h.updF _ t (fun f => resetLastTransfer f ts) (fun _ => rfl) rfl rfl
-  emitPublish := fun _ _ _ _ h => h
+  publishOp := fun s L now _ h =>
+    publishTry_elim (P := fun x => KeysInv x L) (emit s (.opPublish now)) now
+      (KeysInv.publish (s := emit s (.opPublish now)) h now) h
   complete := fun _ _ _ h => h
 
 theorem keys_run (cfg : Cfg) (tbl : List Nat) (ops : List Op) :
@@ -387,7 +389,7 @@ theorem SafeInv.closed : Closed0 SafeInv where
   enterFiles := fun _ _ _ _ h _ _ => h
   emitRead := fun _ _ _ _ h _ => h
   emitIdle := fun _ _ _ _ h _ => h
-  publish := fun _ _ now _ h => h.publish now
+  publish := fun _ _ now _ h _ => h.publish now
   fdtAdvance := fun s L now _ h _ _ => by
     rcases fdtAdvance_cases s now with ⟨e, _⟩ | ⟨k, f, _, _, _, e⟩
     · rw [e]; exact h.same _ _ (fdtPop_panic s) (fdtPop_fdtid s)
@@ -415,7 +417,8 @@ theorem SafeInv.closedOps : ClosedOps0 SafeInv where
     unfold triggerTransferAt; split
     · exact h
     · split <;> exact h
-  emitPublish := fun _ _ _ _ h => h
+  publishOp := fun s L now _ h =>
+    publishTry_elim (P := fun x => SafeInv x L) (emit s (.opPublish now)) now h h
   complete := fun _ _ _ h => h
 
 theorem safe_run (cfg : Cfg) (tbl : List Nat) (ops : List Op) :
